@@ -36,16 +36,31 @@ def demo_setup():
             target = nm
             break
     m = re.search(r"^\+\s*add_boost_test\((\w+)", cm, re.M)
-    return m.group(1) if m else None
+    if m:
+        return m.group(1)
+    cases = re.findall(r"^\+\s+([A-Za-z0-9_]+)/[A-Za-z0-9_]+\s*$", cm, re.M)
+    if cases:
+        return "ctest:" + "|".join(sorted(set(c + "/" for c in cases)))
+    return None
 
 def run_demo(tname):
+    if tname and tname.startswith("ctest:"):
+        # demo cases were added to an existing test binary: build everything, run them through ctest -R
+        pats = tname[6:]
+        rc, out = sh(f"ninja -C {B} -j8 2>&1 | tail -3")
+        if rc != 0 or "FAILED" in out:
+            return None
+        rc, out = sh(f"ctest --test-dir {B} -R '{pats}' --timeout 600 2>&1 | tail -8")
+        m = re.search(r"(\d+)% tests passed, (\d+) tests failed out of (\d+)", out)
+        if not m or int(m.group(3)) == 0:
+            return None
+        return 0 if m.group(2) == "0" else 201
     exe = os.path.join(B, "Bin", "RelWithDebInfo", f"boosttest-test-{tname}")
     if os.path.exists(exe):
         os.unlink(exe)  # never run a stale binary
     rc, out = sh(f"ninja -C {B} -j8 boosttest-test-{tname} 2>&1 | tail -3")
     if not os.path.exists(exe):
         return None
-    rc, out = sh(f"timeout 600 {exe} 2>&1 | tail -5; exit ${{PIPESTATUS:-0}}")
     p = subprocess.run(["timeout", "600", exe], cwd=wt, stdout=subprocess.PIPE, stderr=subprocess.STDOUT, text=True)
     log.append(f"demo rc={p.returncode}: " + p.stdout[-400:])
     return p.returncode
